@@ -83,6 +83,17 @@ def _corr(M):
             f"app('numpy.full_like', self.data.{M}, FMAX())))")
 
 
+_NATIVE_REPLAY = """
+# native recomputation of every C08 formula on generated raw outcomes (K = 1..4, with/without
+# null likelihood and bootstrap, singular Hessians) through the real _calculate_stats
+import sys
+sys.path.insert(0, '/verif/bounded')
+import c08_native
+n, bad = c08_native.run(cases=24, seed=0)
+violated = bool(bad)
+detail = f'{n} generated raw outcomes; first mismatch: {bad[0] if bad else None}'
+"""
+
 _STATS_REQ = {
     'n': 'implies(self.data is not None, self.data.nparam >= 0 and len(self.data.betas) == self.data.nparam '
          'and len(self.data.betaValues) == self.data.nparam and len(self.data.betaNames) == self.data.nparam)',
@@ -122,7 +133,7 @@ contract(Q + 'bioResults._calculate_stats', 'C08',
              'robust': "implies(self.data is not None and self.data.H is not None, same(self.data.robust_varCovar, "
                        "self.data.varCovar.dot(self.data.bhhh.dot(self.data.varCovar))))",
              'bootstrap': "implies(self.data is not None and self.data.H is not None and self.data.bootstrap is not None, "
-                          "same(self.data.bootstrap_varCovar, app('numpy.cov', self.data.bootstrap, rowvar=False)))",
+                          "same(self.data.bootstrap_varCovar, app('numpy.atleast_2d', app('numpy.cov', self.data.bootstrap, rowvar=False))))",
              'family_classical': "implies(self.data is not None and self.data.H is not None, "
                                  + _fam_clause('varCovar', '').replace('LIM', 'self.data.nparam') + ")",
              'family_robust': "implies(self.data is not None and self.data.H is not None, "
@@ -133,6 +144,7 @@ contract(Q + 'bioResults._calculate_stats', 'C08',
              'corr_robust': "implies(self.data is not None and self.data.H is not None, " + _corr('robust_varCovar') + ")",
              'corr_bootstrap': "implies(self.data is not None and self.data.H is not None and self.data.bootstrap is not None, " + _corr('bootstrap_varCovar') + ")",
          },
+         replay=_NATIVE_REPLAY,
          invariants={
              1: {'clauses': {'done': _fam_clause('varCovar', '').replace('LIM', '_k'),
                              'values': 'forall(lambda q: self.data.betas[q].value == old(self.data.betas[q].value), 0, self.data.nparam)'},
